@@ -12,6 +12,7 @@ from .base import RunResult
 ALL = C.ALL_MESSAGE_TYPES
 # locally defined (core) message types used as "good" frames: id -> payload size
 GOOD_TYPES = [26, 32, 0, 8, 33, 14, 62]
+SCRATCH_TYPE = 31990           # registered / re-registered through the public @message_def at run time
 UNKNOWN_TYPES = [7777, 7778, 123456]
 
 
@@ -59,6 +60,8 @@ class ReadPathRun:
         for t in GOOD_TYPES + [C.MT_ACKNOWLEDGE]:
             cls = PM._msg_defs[t]
             self.defs[t] = (cls.type_size, cls.type_hash)
+        self.scratch_layout = 0
+        self.define_scratch(ch.pick("cfg.layout", 2))
         lst = SimSocket(w.net, "mgr")
         lst.bind(("127.0.0.1", w.PORT))
         lst.listen(5)
@@ -75,6 +78,37 @@ class ReadPathRun:
         self.handshake_done = True
         self.consumed = 0
         self.res.config = dict(timecode=self.timecode, forced=self.forced)
+
+    def define_scratch(self, layout):
+        """(re-)register the scratch message type with one of two layouts via the public decorator"""
+        import pyrtma
+        from pyrtma.message_base import MessageMeta
+        from pyrtma.validators import Int32, Double, IntArray
+        if layout == 0:
+            class MDF_SCRATCH(pyrtma.MessageData, metaclass=MessageMeta):
+                type_id = SCRATCH_TYPE
+                type_name = "SCRATCH"
+                type_hash = 0x1111
+                type_size = 8
+                type_source = ""
+                type_def = ""
+                a: Int32 = Int32()
+                b: Int32 = Int32()
+        else:
+            class MDF_SCRATCH(pyrtma.MessageData, metaclass=MessageMeta):
+                type_id = SCRATCH_TYPE
+                type_name = "SCRATCH"
+                type_hash = 0x2222
+                type_size = 24
+                type_source = ""
+                type_def = ""
+                a: Int32 = Int32()
+                b: Int32 = Int32()
+                c: Double = Double()
+                d: IntArray = IntArray(Int32, 2)
+        pyrtma.message_def(MDF_SCRATCH)
+        self.scratch_layout = layout
+        self.defs[SCRATCH_TYPE] = (MDF_SCRATCH.type_size, MDF_SCRATCH.type_hash)
 
     def on_client_read(self, sock, data, wanted):
         if self.handshake_done and sock is self.csock:
@@ -145,7 +179,8 @@ class ReadPathRun:
         sub = self.client.subscribed_types
         version = None
         if kind in ("good", "good_unsub", "wrong_version", "version0", "wrong_size"):
-            cands = [t for t in GOOD_TYPES if (t in sub) == (kind != "good_unsub")] or GOOD_TYPES
+            pool = GOOD_TYPES + [SCRATCH_TYPE, SCRATCH_TYPE]
+            cands = [t for t in pool if (t in sub) == (kind != "good_unsub")] or pool
             if kind == "zero_len":
                 cands = [0, 14]
             t = ch.choose("fd.type", cands)
@@ -153,7 +188,8 @@ class ReadPathRun:
             n = size
             version = h
             if kind == "wrong_size":
-                n = ch.choose("fd.wsize", [size + 1, max(0, size - 1), size + 17, 0 if size else 3, 2 * size + 5])
+                n = ch.choose("fd.wsize", [size + 1, max(0, size - 1), size + 17, 0 if size else 3, 2 * size + 5,
+                                           9000, 9001, 18001, 20000, 65535])
                 if n == size:
                     n = size + 2
             elif kind == "wrong_version":
@@ -169,7 +205,7 @@ class ReadPathRun:
             n, version = 0, self.defs[t][1]
         else:
             t = ch.choose("fd.utype", UNKNOWN_TYPES)
-            n = ch.choose("fd.ulen", [0, 1, 8, 100])
+            n = ch.choose("fd.ulen", [0, 1, 8, 100, 100, 8999, 9000, 9001, 17999, 27005, 65535])
             version = 0
         seqno = len(self.frames) + 2
         payload = bytes(((seqno * 31 + i * 7) & 0xFF) for i in range(n))
@@ -384,7 +420,7 @@ class ReadPathRun:
         c = self.client
         from pyrtma.exceptions import ClientError
         k = ch.weighted("sub.kind", [(4, "sub"), (2, "unsub"), (1, "pause"), (1, "resume"), (1, "all"), (1, "unall")])
-        ts = [ch.choose("sub.t", GOOD_TYPES + [C.MT_ACKNOWLEDGE])]
+        ts = [ch.choose("sub.t", GOOD_TYPES + [C.MT_ACKNOWLEDGE, SCRATCH_TYPE, SCRATCH_TYPE])]
         try:
             if k == "sub":
                 c.subscribe(ts)
@@ -410,7 +446,7 @@ class ReadPathRun:
         try:
             self.setup()
             c = self.client
-            c.subscribe([ch.choose("init.t", GOOD_TYPES), ch.choose("init.t", GOOD_TYPES)])
+            c.subscribe([ch.choose("init.t", GOOD_TYPES + [SCRATCH_TYPE]), ch.choose("init.t", GOOD_TYPES + [SCRATCH_TYPE])])
             f = self.forced
             n = 3 + ch.pick("cfg.nops", 20)
             forced_close = f.get("close_after_frames")
@@ -423,7 +459,7 @@ class ReadPathRun:
                     last = self.frames[-1]
                     keep_total = last.start + f["offset"]
                     self.server_close(f["way"], keep=max(0, keep_total - self.consumed))
-                op = ch.weighted("op.kind", [(6, "feed"), (7, "read"), (2, "sub"), (1, "close"), (2, "arrive")])
+                op = ch.weighted("op.kind", [(6, "feed"), (7, "read"), (2, "sub"), (1, "close"), (2, "arrive"), (1, "redefine")])
                 if self.closed_kind is not None and op in ("feed", "close"):
                     op = "read"
                 if op == "feed":
@@ -436,6 +472,11 @@ class ReadPathRun:
                     self.change_subscription()
                     if not c.connected:
                         lost = True
+                elif op == "redefine":
+                    # frames already queued keep their old layout: they must now be judged against the new one
+                    self.define_scratch(1 - self.scratch_layout)
+                    self.res.probes["scratch_redefined"] += 1
+                    self.t(f"message type {SCRATCH_TYPE} re-registered with layout {self.scratch_layout}")
                 elif op == "arrive":
                     s = self.csock
                     if s.rx_inflight:
@@ -471,6 +512,11 @@ class ReadPathRun:
         finally:
             if getattr(self, "client", None) is not None:
                 self.client._connected = False
+            try:
+                import pyrtma.message as PM
+                PM._msg_defs.pop(SCRATCH_TYPE, None)
+            except Exception:
+                pass
             w = self.w
             res.stats.update({k: v for k, v in w.net.stats.items() if v})
             res.digest = w.digest() + str(self.consumed) + str(len(self.frames))
